@@ -269,7 +269,7 @@ def net_case(draw):
 
 def plan(tier, seed):
     jobs = [{"sub": "errors", "seed": seed, "cost": 2}]
-    n = scaled(480 if tier == "quick" else 8000)
+    n = scaled(1600 if tier == "quick" else 24000)
     shards = 16 if tier == "quick" else 64
     for k in range(shards):
         jobs.append({"sub": "net", "seed": seed, "shard": k, "n": max(1, n // shards), "cost": 10})
